@@ -240,7 +240,10 @@ impl AsmParser {
                 break;
             }
 
-            self.line += 1;
+            self.line = match self.line.checked_add(1) {
+                Some(line) => line,
+                None => miette::bail!("Program is too long: it has more than 65535 words and cannot fit in memory"),
+            };
         }
         Ok(self.air)
     }
